@@ -50,7 +50,18 @@ func vfRoutingMicroScripts(property string) []vfMicroScript {
 				Steps: []string{"breakS:1", "tick:2", "openS:1"}},
 		}
 	default:
+		asym := &vfRouteScenario{Name: "micro-bcast", NS: 1, NT: 2, Scripts: [][]vfBatch{{
+			{IDs: []int64{10}, Tgt: []int{1}, High: 11},
+			{IDs: []int64{11}, Tgt: []int{1}, High: 12},
+			{IDs: []int64{12}, Tgt: []int{1}, High: 13},
+			{IDs: []int64{13}, Tgt: []int{2}, High: 14},
+			{IDs: []int64{14}, Tgt: []int{2}, High: 15},
+		}}, InitHigh: 5, MaxWM: 1, MaxRepeat: 1, InOrder: true}
 		return []vfMicroScript{
+			// a watermark-only batch is broadcast to two target streams whose proxy id counters differ (3 tasks vs 1),
+			// then one more task for the second target: each stream must carry watermarks of its own id space
+			{Name: "broadcast-watermark-asymmetric-targets", Scenario: asym, Setup: []string{"openT:1", "openT:2", "openS:1", "emit:1", "emit:1", "emit:1", "emit:1"},
+				Steps: []string{"wm:1", "emit:1"}},
 			// two single-task batches for different targets and the acknowledgement of the second target
 			{Name: "two-targets-one-acks", Scenario: base("micro-ack", 0), Setup: []string{"openT:1", "openT:2", "openS:1"},
 				Steps: []string{"emit:1", "emit:1", "tick:2", "wm:1"}},
